@@ -271,6 +271,10 @@ func runCases(env *vh.Env, rep *vh.Report, cases []*hcase) {
 	}
 	for i, c := range cases {
 		res := &caseResult{c, obsAll[i], compare(c, obsAll[i], ans[offs[i]:offs[i+1]]), direct(c, obsAll[i])}
+		if obsAll[i].disturbed {
+			rep.Count("realclock:disturbed-by-load-skipped")
+			continue
+		}
 		rep.Case(canon(c), nontrivial(c))
 		rep.Count("gen:" + c.Gen)
 		if realClock {
@@ -302,6 +306,10 @@ func runCases(env *vh.Env, rep *vh.Report, cases []*hcase) {
 		if len(res.mm) > 0 || len(res.pf) > 0 {
 			// confirm on a fresh logger: a scheduling fluke does not repeat
 			res2 := evalCase(env, c)
+			if res2.ob.disturbed {
+				rep.Count("realclock:disturbed-by-load-skipped")
+				continue
+			}
 			if len(res2.mm) == 0 && len(res2.pf) == 0 {
 				rep.Count("flaky-not-reproduced")
 				rep.Note("case %d (%s) disagreed once and agreed on re-execution: %v %v", i, c.Gen, res.mm, res.pf)
